@@ -375,8 +375,10 @@ class Executor:
             return Struct('RangeFull', [])
         # unit variants printed as constants, e.g. `const Option::<T>::None`
         segs = self.path_segments(t)
-        if len(segs) >= 2 and segs[-2] in self.prog.src.enums:
-            return self.make_variant(segs[-2], segs[-1], [])
+        if len(segs) >= 2:
+            en = self.prog.src.resolve_enum(segs[:-1], segs[-1])
+            if en is not None and any(v == segs[-1] for v, _ in self.prog.src.enums[en]):
+                return self.make_variant(en, segs[-1], [])
         # named constant / promoted: evaluate its body
         f = None
         try:
@@ -465,8 +467,8 @@ class Executor:
         segs = self.path_segments(path)
         src = self.prog.src
         last = segs[-1]
-        if len(segs) >= 2 and segs[-2] in src.enums and any(v == last for v, _ in src.enums[segs[-2]]):
-            en = segs[-2]
+        en = src.resolve_enum(segs[:-1], last) if len(segs) >= 2 else None
+        if en is not None and any(v == last for v, _ in src.enums[en]):
             for i, (vn, fns) in enumerate(src.enums[en]):
                 if vn == last:
                     if named:
@@ -476,6 +478,7 @@ class Executor:
                     else:
                         vals = [v for _, v in fields]
                     return Enum(en, i, vn, vals)
+        modq = '::'.join(re.findall(r'\b([a-z_][a-z0-9_]*)::', _LIFETIME.sub('', path)))
         if last in src.structs:
             fns = src.structs[last]
             if named:
@@ -487,7 +490,7 @@ class Executor:
                         raise Unmodelled('field %s of %s' % (n, last))
             else:
                 vals = [v for _, v in fields]
-            return Struct(last, vals)
+            return Struct(last, vals, modq or None)
         ext = EXTERNAL_STRUCTS.get(last)
         if ext is not None:
             if named:
@@ -722,7 +725,7 @@ class Executor:
             v = load(r)
             ty = self.place_type(frame, st[1])
             segs = self.path_segments(ty)
-            en = segs[-1] if segs else None
+            en = self.prog.src.resolve_enum(segs) if segs else None
             if isinstance(v, Enum):
                 vs = self.prog.src.enums[v.ty]
                 v.variant = st[2]
@@ -783,8 +786,9 @@ class Executor:
         """call a function item by path (constructor or function)"""
         segs = self.path_segments(path)
         src = self.prog.src
-        if len(segs) >= 2 and segs[-2] in src.enums and any(v == segs[-1] for v, _ in src.enums[segs[-2]]):
-            return self.make_variant(segs[-2], segs[-1], list(args))
+        en = src.resolve_enum(segs[:-1], segs[-1]) if len(segs) >= 2 else None
+        if en is not None and any(v == segs[-1] for v, _ in src.enums[en]):
+            return self.make_variant(en, segs[-1], list(args))
         if segs[-1] in src.structs and not self.prog.lookup(path):
             return Struct(segs[-1], list(args))
         return self.call(None, path, list(args))
